@@ -16,7 +16,8 @@ reg(Prop(
          '(random expression trees over | & ^ ~, assigning and non-assigning forms, literals built in the 13 ways, up to '
          '6 operator levels, every intermediate result judged) and history (48 mutating steps on one bitfield, judged '
          'after every step). Every judged result is compared through get() on every enumerator and through ==, != and '
-         'hash with the canonical bitfield of the expected set. evaluations = judged results; a case for the distinct '
+         'hash with the canonical bitfield of the expected set; a result that failed is not fed into further judged '
+         'operations (attribution to the first diverging operation). evaluations = judged results; a case for the distinct '
          'count is one subset, one row (left operand, right operand set), one tree (its expression text) or one history '
          '(its step sequence), hashed canonically.',
     assumptions=COMMON_ASSUMPTIONS + [
